@@ -91,47 +91,95 @@ theorem strictNeededOK_sound (n : Nat) (eps : Rat) (G : List Vec) (b k : Vec) (h
   simp only [Bool.and_eq_true, List.all_eq_true, decide_eq_true_eq] at h
   exact ⟨(isBeliefB_iff n b).mp h.1, h.2⟩
 
-theorem ite_bad_ne_ok' (c : Prop) [Decidable c] : (if c then Env.bad else Env.undecided) ≠ Env.ok := by
-  split <;> simp
+theorem tieAtOK_sound (n : Nat) (G : List Vec) (b k : Vec) (h : tieAtOK n G b k = true) :
+    IsBelief n b ∧ (∃ g ∈ G, dot b g = dot b k) ∧ ∀ g ∈ G, dot b g ≤ dot b k := by
+  unfold tieAtOK at h
+  simp only [Bool.and_eq_true, List.any_eq_true, List.all_eq_true, decide_eq_true_eq, beq_iff_eq] at h
+  exact ⟨(isBeliefB_iff n b).mp h.1.1, h.1.2, h.2⟩
+
+/-- what a failing verdict means: `k` is covered everywhere by the other kept vectors (hence nowhere strictly needed beyond
+    `epsBad`), AND it is not a near-tie inside the tolerance: either it ties the envelope EXACTLY at some belief, or it is
+    below the envelope by at least `tolBig` at every belief -/
+theorem needBad_sound (S : Nat) (epsBad tolBig : Rat) (others : List Vec) (k l : Vec) (cands : List Vec)
+    (hG : ∀ g ∈ others, g.length = S) (hk : k.length = S) (h : needBad S epsBad tolBig others k l cands = true) :
+    (∀ b, IsBelief S b → ∃ g ∈ others, dot b k ≤ dot b g + epsBad) ∧
+    ((∃ b, IsBelief S b ∧ (∃ g ∈ others, dot b g = dot b k) ∧ ∀ g ∈ others, dot b g ≤ dot b k) ∨
+     (∀ b, IsBelief S b → ∃ g ∈ others, dot b k + tolBig ≤ dot b g)) := by
+  unfold needBad at h
+  simp only [Bool.and_eq_true, Bool.or_eq_true] at h
+  refine ⟨farkasOK_sound S epsBad others l k hG hk h.1, ?_⟩
+  rcases h.2 with ht | hu
+  · obtain ⟨b, _, hb⟩ := List.any_eq_true.mp ht
+    exact Or.inl ⟨b, tieAtOK_sound S others b k hb⟩
+  · refine Or.inr (fun b hb => ?_)
+    obtain ⟨g, hg, hle⟩ := farkasOK_sound S (-tolBig) others l k hG hk hu b hb
+    exact ⟨g, hg, by linarith⟩
 
 /-- `ok`: the kept vector is strictly needed — at some belief it is more than `epsOk` above every other kept vector -/
-theorem neededClause_ok_sound (S : Nat) (epsOk epsBad : Rat) (others : List Vec) (k : Vec) (c : Option Cert)
-    (h : neededClause S epsOk epsBad others k c = .ok) :
+theorem neededClause_ok_sound (S : Nat) (epsOk epsBad tolBig : Rat) (extra others : List Vec) (k : Vec) (c : Option Cert)
+    (h : neededClause S epsOk epsBad tolBig extra others k c = .ok) :
     ∃ b, IsBelief S b ∧ ∀ g ∈ others, dot b g + epsOk < dot b k := by
   unfold neededClause at h
-  by_cases hany : (needCands S c).any (fun b => strictNeededOK S epsOk others b k) = true
+  by_cases hany : (needCands S c ++ extra).any (fun b => strictNeededOK S epsOk others b k) = true
   · obtain ⟨b, _, hb⟩ := List.any_eq_true.mp hany
     exact ⟨b, strictNeededOK_sound S epsOk others b k hb⟩
   · rw [if_neg hany] at h
     cases hl : needLam c with
     | none => simp only [hl] at h; cases h
-    | some l => simp only [hl] at h; exact absurd h (ite_bad_ne_ok' _)
+    | some l =>
+      simp only [hl] at h
+      split at h
+      · cases h
+      · split at h <;> cases h
 
-/-- `bad`: the kept vector is nowhere needed — at EVERY belief some other kept vector is within `epsBad` of it or above
-    (`farkasOK_sound`, verbatim) -/
-theorem neededClause_bad_sound (S : Nat) (epsOk epsBad : Rat) (others : List Vec) (k : Vec) (c : Option Cert)
+/-- `bad` (= `fail Pruner unneeded_vector_kept`): covered everywhere by the other kept vectors and not a within-tolerance near-tie -/
+theorem neededClause_bad_sound (S : Nat) (epsOk epsBad tolBig : Rat) (extra others : List Vec) (k : Vec) (c : Option Cert)
     (hG : ∀ g ∈ others, g.length = S) (hk : k.length = S)
-    (h : neededClause S epsOk epsBad others k c = .bad) :
-    ∀ b, IsBelief S b → ∃ g ∈ others, dot b k ≤ dot b g + epsBad := by
+    (h : neededClause S epsOk epsBad tolBig extra others k c = .bad) :
+    (∀ b, IsBelief S b → ∃ g ∈ others, dot b k ≤ dot b g + epsBad) ∧
+    ((∃ b, IsBelief S b ∧ (∃ g ∈ others, dot b g = dot b k) ∧ ∀ g ∈ others, dot b g ≤ dot b k) ∨
+     (∀ b, IsBelief S b → ∃ g ∈ others, dot b k + tolBig ≤ dot b g)) := by
   unfold neededClause at h
-  by_cases hany : (needCands S c).any (fun b => strictNeededOK S epsOk others b k) = true
+  by_cases hany : (needCands S c ++ extra).any (fun b => strictNeededOK S epsOk others b k) = true
   · rw [if_pos hany] at h; cases h
   · rw [if_neg hany] at h
     cases hl : needLam c with
     | none => simp only [hl] at h; cases h
     | some l =>
       simp only [hl] at h
-      by_cases hf : farkasOK S epsBad others l k = true
-      · exact farkasOK_sound S epsBad others l k hG hk hf
-      · rw [if_neg hf] at h; cases h
+      by_cases hb : needBad S epsBad tolBig others k l (needCands S c ++ extra) = true
+      · exact needBad_sound S epsBad tolBig others k l _ hG hk hb
+      · rw [if_neg hb] at h
+        split at h <;> cases h
 
-/-- with `epsBad ≤ epsOk` the two verdicts exclude each other, whatever certificates are supplied -/
-theorem neededClause_consistent (S : Nat) (epsOk epsBad : Rat) (hle : epsBad ≤ epsOk) (others : List Vec) (k : Vec)
+/-- `within` (= `skip within_tolerance`): a cover by the others is verified, but neither an exact tie nor a uniform slack -/
+theorem neededClause_within_sound (S : Nat) (epsOk epsBad tolBig : Rat) (extra others : List Vec) (k : Vec) (c : Option Cert)
+    (hG : ∀ g ∈ others, g.length = S) (hk : k.length = S)
+    (h : neededClause S epsOk epsBad tolBig extra others k c = .within) :
+    ∀ b, IsBelief S b → ∃ g ∈ others, dot b k ≤ dot b g + epsBad := by
+  unfold neededClause at h
+  by_cases hany : (needCands S c ++ extra).any (fun b => strictNeededOK S epsOk others b k) = true
+  · rw [if_pos hany] at h; cases h
+  · rw [if_neg hany] at h
+    cases hl : needLam c with
+    | none => simp only [hl] at h; cases h
+    | some l =>
+      simp only [hl] at h
+      by_cases hb : needBad S epsBad tolBig others k l (needCands S c ++ extra) = true
+      · rw [if_pos hb] at h; cases h
+      · rw [if_neg hb] at h
+        by_cases hf : farkasOK S epsBad others l k = true
+        · exact farkasOK_sound S epsBad others l k hG hk hf
+        · rw [if_neg hf] at h; cases h
+
+/-- with `epsBad ≤ epsOk` the verdicts `ok` and `bad` exclude each other, whatever certificates are supplied -/
+theorem neededClause_consistent (S : Nat) (epsOk epsBad tolBig : Rat) (hle : epsBad ≤ epsOk) (extra extra' others : List Vec) (k : Vec)
     (c c' : Option Cert) (hG : ∀ g ∈ others, g.length = S) (hk : k.length = S)
-    (h1 : neededClause S epsOk epsBad others k c = .ok) : neededClause S epsOk epsBad others k c' ≠ .bad := by
+    (h1 : neededClause S epsOk epsBad tolBig extra others k c = .ok) :
+    neededClause S epsOk epsBad tolBig extra' others k c' ≠ .bad := by
   intro h2
-  obtain ⟨b, hb, hv⟩ := neededClause_ok_sound S epsOk epsBad others k c h1
-  obtain ⟨g, hg, hle'⟩ := neededClause_bad_sound S epsOk epsBad others k c' hG hk h2 b hb
+  obtain ⟨b, hb, hv⟩ := neededClause_ok_sound S epsOk epsBad tolBig extra others k c h1
+  obtain ⟨g, hg, hle'⟩ := (neededClause_bad_sound S epsOk epsBad tolBig extra' others k c' hG hk h2).1 b hb
   have := hv g hg
   linarith
 
